@@ -112,9 +112,32 @@ NEEDS4 = {
  "C13-5": ("converters whose function vertex is already in the graph are skipped and dropped from the reported list", "two converters of one Go type, or a converter of the target's type, and a hopeless parameter"),
  "C13-6": ("pruned requirements are reported through f.input.Named/Typed (typed map keyed by type only)", "a target with two type-only parameters of one type differing in subtype, the earlier one hopeless"),
 }
+NEEDS5 = {
+ "C07-5": ("the discounted graph copy is shared by all parameters of a function", "two or more named parameters converted from competing same-typed inputs; order-dependent"),
+ "C07-6": ("the name discount skips in-edges whose source is a named value vertex", "the same-named input supplied with NamedSubtype, a name-taking converter declaring it without subtype, and a type-only converter: the type-only one runs"),
+ "C09-5": ("redefineInputs skips the zeroing of *all* functions when the Redefine target is a memoized FuncOnce function", "a run-once target already called, then a Redefine planned through shared converters (FilterInput): the real converters run"),
+ "C09-6": ("Redefine clears the memoized *failure* of a run-once converter on the shared original", "failing Call, Redefine, Call: the converter runs a second time"),
+ "C10-5": ("Convert returns an exactly typed input directly", "a typed input of the target type plus a failing ConverterGen"),
+ "C10-6": ("Convert's identity Funcs are cached by printed type names", "Convert to two distinct types with the same printed name in one process"),
+ "C14-5": ("isStruct stops looking for the marker at the first ordinary field", "a marker struct whose embedded marker is not the first field"),
+ "C14-6": ("the tag options map is hoisted out of the per-field loop", "an untagged field declared after a tagged one inherits typeOnly/subtype"),
+ "C15-5": ("newValueSetFromStruct caches layouts by reflect.Type and returns shallow copies sharing the Value cells", "two value sets built from equal lists: a 'fresh' set already holds the other's values"),
+ "C15-6": ("Func.outputValues looks type-only outputs up with TypedSubtype", "a named output listed before a type-only output of the same type, feeding a differently named parameter (reported by C01 on the multiout tier)"),
+ "C16-5": ("Func.argBuilder merges defaults and call options with append(f.callOpts, opts...)", "defaults passed as a sub-slice with spare capacity, a call with other options, then another use of that storage"),
+ "C16-6": ("Named stores the raw name; lower-casing moved to graph construction", "one key in two casings through Named: last-wins depends on map order"),
+ "C17-5": ("Call returns the memoized result of a FuncOnce target before resolving", "a run-once target that succeeded once, then a call whose resolution fails: it returns the old success (reported by C11's differential)"),
+ "C17-6": ("Redefine decides 'already ends in error' with Implements(error)", "a function whose last result is a concrete error type, redefined, whose inner call fails: MakeFunc panics (reported by C06/C08)"),
+ "C18-5": ("the visited set is replaced by a distance comparison", "unreachable vertices with an edge into the reachable part (int32 wrap), order-dependent"),
+ "C18-6": ("an overflow guard 'weight >= 0 && tempDistance <= 0 -> continue' drops distance-zero relaxations", "a zero-weight edge from a vertex at distance 0"),
+ "C19-5": ("Remove takes a fast path for an isolated vertex and leaves its adjacency entries", "remove an isolated vertex, then Add it again: it never returns to the vertex table"),
+ "C19-6": ("AddEdgeWeighted returns early if the *opposite* edge already has the weight being set", "an edge v2->v1 of weight w exists and v1->v2 is set to w"),
+ "C20-5": ("DFS collects the unvisited neighbours on entry and calls back afterwards", "a shortcut edge a->c next to a->b->c and an order yielding b first: c is descended into twice"),
+ "C20-6": ("Tarjan's inStack compares DFS indexes", "an edge into a component already completed in the same DFS tree, order-dependent"),
+}
 NEEDS.update(NEEDS2)
 NEEDS.update(NEEDS3)
 NEEDS.update(NEEDS4)
+NEEDS.update(NEEDS5)
 SRC = {}
 for k in NEEDS2:
     prop, n = k.split("-")
@@ -127,6 +150,10 @@ for k in NEEDS3:
 for k in NEEDS4:
     prop, n = k.split("-")
     SRC[k] = ("/tmp/seed4/%s" % prop, str(int(n) - 4), "third round: same brief as the second, fresh agents")
+
+for k in NEEDS5:
+    prop, n = k.split("-")
+    SRC[k] = ("/tmp/seed5/%s" % prop, str(int(n) - 4), "third round: same brief as the second, fresh agents")
 
 def parse(path):
     res = {}
